@@ -656,12 +656,13 @@ def r_num(prog, R):
             k = "fn=%s %s(%s) validated" % (f.name, c["callee"], src)
             ok_ = False
             for c3, p3 in mf.cond_facts_at(b, i):
-                t = render(c3)
-                if p3 and "ares_str_isnum" in t:
-                    ok_ = True
-            if not ok_ and mf.passed_call(b, i, "ares_str_isnum"):
-                # `if (!isnum(val)) goto done;` leaves a negative fact on the fall-through path
-                ok_ = any((not p3) is False and False for _ in ()) or any("ares_str_isnum" in render(c3) and p3 for c3, p3 in mf.cond_facts_at(b, i))
+                op3, l3, r3 = norm_cmp(c3, p3)
+                ls = strip(l3)
+                if op3 == "truth" and ls is not None and ls.get("k") == "call":
+                    full = f.call_by_id(ls["id"]) if ls.get("ref") else None
+                    cn = full[2] if full else ls
+                    if cn.get("callee") == "ares_str_isnum" and render(strip(cn["args"][0])) == src:
+                        ok_ = True
             if ok_:
                 r.ok(k, f.loc(c["ln"]))
             else:
